@@ -223,13 +223,14 @@ def inline_new_helpers(crate, raw, defpath, depth=3):
         d = cal.get("def") if isinstance(cal, dict) else None
         # a callback that arrived as a parameter of a spliced helper (`with_uplink(.., |uplink| ..)`, `with_uplink(.., mark_synced)`): once the helper
         # is part of its caller the value called is in sight - a closure built here, or a function named here - and the call can be resolved
+        forced = False   # (closures are numbered in source order: one written before the freeze and one written after can bear the same name)
         if out is not None and isinstance(cal, dict) and not cal.get("resolved") and cal.get("name") in ("call", "call_mut", "call_once") and len(t.get("args", [])) == 2 \
                 and budget > 0 and not blocks[i].get("cleanup"):
             org = _callback_origin(blocks, t["args"][0])
             if org is not None and org[0] == "closure" and org[1] in crate.by_def:
                 cal = dict(cal, **{"def": org[1], "via": {"name": cal.get("name")}, "resolved": True, "local": True})
                 d = org[1]
-                known = set(known) - {d} if d in known and False else known
+                forced = True
             elif org is not None and org[0] == "fn" and isinstance(org[1], dict) and org[1].get("def") in crate.by_def:
                 tup = t["args"][1]
                 tp = tup[1] if isinstance(tup, list) and tup and tup[0] in ("m", "c") else None
@@ -280,7 +281,7 @@ def inline_new_helpers(crate, raw, defpath, depth=3):
                 nb["t"] = {"line": line, "k": "goto", "t": entry_blk}
                 blocks[i] = nb
                 inlined.append(d)
-        elif d and "{closure" in d and d in crate.by_def and d not in known and d != defpath and (cal.get("via") or {}).get("name") in ("call", "call_mut", "call_once") \
+        elif d and "{closure" in d and d in crate.by_def and (d not in known or forced) and d != defpath and (cal.get("via") or {}).get("name") in ("call", "call_mut", "call_once") \
                 and budget > 0 and len(t.get("args", [])) == 2 and inlined.count(d) < 8 and not blocks[i].get("cleanup") and not (crate.by_def[d].get("coroutine") or crate.by_def[d].get("kind") == "SyntheticCoroutineBody"):
             # a local closure written after the freeze and called directly (`let is_unanimous = |ordering| ..; if is_unanimous(Relaxed) ..`): its body
             # runs here; the arguments arrive as one tuple
@@ -1605,7 +1606,7 @@ class Body:
                 if ap is None:
                     continue
                 pa = self.resolve(ap)
-                if pa.root == call.dest[0] and not pa.fields:
+                if (pa.root == call.dest[0] and not pa.fields) or (ap[0] == call.dest[0] and not ap[1]):
                     for si in self.result_switches(c, max_hops=1):
                         ve = self.variant_edges(si["block"])
                         if ve and "Continue" in ve and "Break" in ve:
@@ -1912,8 +1913,10 @@ class Body:
                 while x is not None:
                     path.append(x[0])
                     x = parent[x]
-                if not (len(path) == 1 and b in start_blocks and targets != set(self.exits()) and False):
-                    return False, list(reversed(path))
+                # the witness may rely on a match whose outcome is a known constant or variant built just before (`Ok(())` from a closure handed to a helper, then `?`)
+                if len(path) > 1 and not (self.reachable_cp([s_ for s_ in start_blocks if s_ not in through], cap=20000, avoid=through, cut=discharge) & targets):
+                    return True, None
+                return False, list(reversed(path))
             for s, env2 in self._edge_envs(b, env):
                 if s in through or (b, s) in discharge:
                     continue
@@ -1939,7 +1942,27 @@ class Body:
                 return None
         return tuple(out)
 
-    def _cp_transfer(self, b, env):
+    def _sym_candidates(self):
+        """bool results of calls that are copied or packed into a tuple before they are tested: the same unknown value may then be tested more than once
+        (`let more = q.has_data(); if !more {..}; (action, more)` and the caller's `if more {..}`)"""
+        if getattr(self, "_symc", None) is None:
+            dests = {}
+            for b_ in range(self.n):
+                t_ = self.term(b_)
+                if t_["k"] == "call" and t_.get("dest") is not None and not t_["dest"][1]:
+                    dl = t_["dest"][0]
+                    if dl < len(self.locals) and self.locals[dl] == "bool":
+                        dests[dl] = dests.get(dl, 0) + 1
+            used = set()
+            for i, j, p_, rv, line in self.assigns():
+                ops = [rv[1]] if rv[0] == "use" else (rv[2] if rv[0] == "agg" else [])
+                for o in ops:
+                    if o[0] in ("c", "m") and not o[1][1]:
+                        used.add(o[1][0])
+            self._symc = {l_ for l_ in dests if l_ in used}
+        return self._symc
+
+    def _cp_transfer(self, b, env, sym=False):
         d = dict(env)
 
         def kill(loc):
@@ -2019,7 +2042,7 @@ class Body:
                             return d.get((o[1][0], fp0))
                     return None
                 a_, b_ = val(rv[2]), val(rv[3])
-                if a_ is not None and b_ is not None:
+                if isinstance(a_, (bool, int)) and isinstance(b_, (bool, int)):
                     a_i, b_i = int(a_), int(b_)
                     res = {"Eq": a_i == b_i, "Ne": a_i != b_i, "Lt": a_i < b_i, "Le": a_i <= b_i, "Gt": a_i > b_i, "Ge": a_i >= b_i}.get(rv[1])
                     if res is None and rv[1] in ("BitAnd", "BitOr", "BitXor") and isinstance(a_, bool) and isinstance(b_, bool):
@@ -2053,9 +2076,18 @@ class Body:
                         d[(dl, "variant")] = 0 if av == 0 else 1
                     elif aty.startswith("core::option::Option<"):
                         d[(dl, "variant")] = 0 if av == 1 else 1
+            if sym and not t["dest"][1] and dl in self._sym_candidates():
+                # an unknown bool that is carried around: every copy of it answers a test the same way
+                for k in [k for k, v in d.items() if v == ("sym", b) or k == ("K", b)]:
+                    d.pop(k, None)
+                d[(dl, ())] = ("sym", b)
+        if sym:
+            held = {v[1] for v in d.values() if isinstance(v, tuple) and v and v[0] == "sym"}
+            for k in [k for k in d if k[0] == "K" and k[1] not in held]:
+                d.pop(k, None)
         return d
 
-    def reachable_cp(self, start_blocks, cap=40000, avoid=()):
+    def reachable_cp(self, start_blocks, cap=40000, avoid=(), cut=()):
         """Blocks reachable from start_blocks when constants and known variants (through aggregates, moves, `?`) decide the matches they reach."""
         seen, blocks = set(), set()
         dq = deque((s_, frozenset()) for s_ in start_blocks if s_ not in avoid)
@@ -2066,29 +2098,50 @@ class Body:
                 continue
             seen.add((b, env))
             blocks.add(b)
-            d = self._cp_transfer(b, env)
+            d = self._cp_transfer(b, env, sym=True)
             t = self.term(b)
             succs = self.succ[b]
+            learn = None
             if t["k"] == "switch":
                 p_ = op_place(t["discr"])
                 if p_ is not None and not p_[1] and (p_[0], ()) in d:
                     val = d[(p_[0], ())]
-                    val = int(val) if isinstance(val, bool) else val
-                    hit = [tb for v_, tb in t["arms"] if (int(v_) if isinstance(v_, str) else v_) == val]
-                    succs = hit[:1] if hit else [t["otherwise"]]
+                    if isinstance(val, tuple) and val and val[0] == "sym":
+                        val_id = val[1]
+                        known = d.get(("K", val[1]))
+                        if known is None:
+                            # first test of this value on the path: both ways are open, and each remembers its answer
+                            arms_ = [((int(v_) if isinstance(v_, str) else v_), tb) for v_, tb in t["arms"]]
+                            learn = {}
+                            for v_, tb in arms_:
+                                learn.setdefault(tb, v_)
+                            if len(arms_) == 1 and arms_[0][0] in (0, 1) and t["otherwise"] not in learn:
+                                learn[t["otherwise"]] = 1 - arms_[0][0]
+                            val = None
+                        else:
+                            val = known
+                    if val is not None:
+                        val = int(val) if isinstance(val, bool) else val
+                        hit = [tb for v_, tb in t["arms"] if (int(v_) if isinstance(v_, str) else v_) == val]
+                        succs = hit[:1] if hit else [t["otherwise"]]
             env2 = frozenset(d.items())
             for s_ in succs:
-                if not self.is_cleanup(s_):
-                    dq.append((s_, env2))
+                if not self.is_cleanup(s_) and (b, s_) not in cut:
+                    if learn is not None and s_ in learn:
+                        d2 = dict(d)
+                        d2[("K", val_id)] = learn[s_]
+                        dq.append((s_, frozenset(d2.items())))
+                    else:
+                        dq.append((s_, env2))
         if cap <= 0:
-            if avoid:
+            if avoid or cut:
                 seen_b, st = set(), [s_ for s_ in start_blocks if s_ not in avoid]
                 while st:
                     x = st.pop()
                     if x in seen_b or x in avoid:
                         continue
                     seen_b.add(x)
-                    st.extend(s_ for s_ in self.succ[x] if not self.is_cleanup(s_))
+                    st.extend(s_ for s_ in self.succ[x] if not self.is_cleanup(s_) and (x, s_) not in cut)
                 return seen_b
             return self.reachable_from(list(start_blocks))
         return blocks
@@ -2121,6 +2174,46 @@ class Body:
                     hit = [tb for v_, tb in t["arms"] if (int(v_) if isinstance(v_, str) else v_) == val]
                     succs = hit[:1] if hit else [t["otherwise"]]
             env2 = tuple(sorted(d.items(), key=repr))
+            for s_ in succs:
+                if not self.is_cleanup(s_):
+                    dq.append((s_, env2))
+        if cap <= 0:
+            out.add(None)
+        return out
+
+    def variants_at(self, start_blocks, target_block, operand, cap=40000):
+        """The set of variant indices the enum value `operand` can hold on arrival at the terminator of `target_block`, over the paths from
+        start_blocks - however it was put together (built in a helper from an Option that was itself built from the matched value, ..). None in the
+        set = a path on which the variant is not known."""
+        out = set()
+        if operand[0] not in ("c", "m") or operand[1][1]:
+            return {None}
+        loc = operand[1][0]
+        seen = set()
+        dq = deque((s_, frozenset()) for s_ in start_blocks)
+        while dq and cap > 0:
+            cap -= 1
+            b, env = dq.popleft()
+            if (b, env) in seen:
+                continue
+            seen.add((b, env))
+            if b == target_block:
+                d0 = dict(env)
+                # the statements of the target block run before its terminator
+                d0 = self._cp_transfer(b, env)
+                out.add(d0.get((loc, "variant")))
+                continue
+            d = self._cp_transfer(b, env)
+            t = self.term(b)
+            succs = self.succ[b]
+            if t["k"] == "switch":
+                p_ = op_place(t["discr"])
+                if p_ is not None and not p_[1] and (p_[0], ()) in d:
+                    val = d[(p_[0], ())]
+                    val = int(val) if isinstance(val, bool) else val
+                    hit = [tb for v_, tb in t["arms"] if (int(v_) if isinstance(v_, str) else v_) == val]
+                    succs = hit[:1] if hit else [t["otherwise"]]
+            env2 = frozenset(d.items())
             for s_ in succs:
                 if not self.is_cleanup(s_):
                     dq.append((s_, env2))
